@@ -62,7 +62,15 @@ def main():
         ("streamcomp", [
             ("hook: history larger than the window allows", lambda e: e["ev"] == "comp" and "lz" in e and e["lz"]["lasize"] > 0, lambda e: dict(e, lz=dict(e["lz"], dsize=32768))),
             ("hook: look-ahead position off by one", lambda e: e["ev"] == "comp" and "lz" in e and e["lz"]["lapos"] > 0, lambda e: dict(e, lz=dict(e["lz"], lapos=e["lz"]["lapos"] - 1))),
+            ("hook: look-ahead + history above the window inside the call", lambda e: e["ev"] == "comp" and "lz" in e,
+             lambda e: dict(e, lz=dict(e["lz"], fillmax=32769))),
             ("hook: ring content differs from the input", lambda e: e["ev"] == "comp" and "lz" in e and e["lz"]["dsize"] > 3, lambda e: dict(e, lz=dict(e["lz"], hist_bad=3))),
+        ]),
+        ("huff", [
+            ("hook: one code size shortened", lambda e: e["ev"] == "huff" and sum(1 for x in e["sizes"] if x > 1) >= 2,
+             lambda e: dict(e, sizes=[(x - 1 if (x > 1 and i == [j for j, y in enumerate(e["sizes"]) if y > 1][0]) else x) for i, x in enumerate(e["sizes"])])),
+            ("hook: one code word changed", lambda e: e["ev"] == "huff" and sum(1 for x in e["sizes"] if x > 0) >= 2,
+             lambda e: dict(e, codes=[(c ^ 1 if i == [j for j, y in enumerate(e["sizes"]) if y > 0][0] else c) for i, c in enumerate(e["codes"])])),
         ]),
         ("deflate_protocol", [
             ("written beyond the buffer", lambda e: e["ev"] == "defl" and e["out_len"] > 0, lambda e: dict(e, written=e["out_len"] + 1)),
@@ -74,6 +82,8 @@ def main():
         ("capi", [
             ("total_in not updated", lambda e: e["ev"] == "c_call" and e["after"]["total_in"] > e["before"]["total_in"], lambda e: dict(e, after=dict(e["after"], total_in=e["before"]["total_in"]))),
             ("different return code", lambda e: e["ev"] == "c_call", lambda e: dict(e, ret=e["ret"] - 1)),
+            ("inflate: adler field stale", lambda e: e["ev"] == "c_call" and e["fn"] == "mz_inflate" and e["ret"] == 1 and e.get("zlib") and e["after"]["total_out"] > 0,
+             lambda e: dict(e, after=dict(e["after"], adler=[0, 1]))),
         ]),
         ("reset", [
             ("one pair differs", lambda e: e["ev"] == "pair" and isinstance(e["a"], dict), lambda e: dict(e, a=dict(e["a"], consumed=e["a"].get("consumed", 0) + 1))),
